@@ -411,7 +411,7 @@ def events_for(r: random.Random, w: World, P: str) -> None:
             else:
                 w.cfg[name] = {"class": kind, "target": tgt, "triggerTime": r.randrange(0, s["iterationSteps"] + 1),
                                "priceChangeRate": r.choice([-0.2, -0.05, 0.05, 0.3]), "orderVolume": r.randint(1, 20),
-                               "orderTimeLength": r.randint(1, 5), "enabled": r.random() < 0.9}
+                               "orderTimeLength": r.choice([0, 1, 2, 3, 5]), "enabled": r.random() < 0.9}
             s.setdefault("events", []).append(name)
     if P == "hooks":
         gen_probes(r, w)
@@ -560,7 +560,7 @@ def gen_rules(r: random.Random, profile: str) -> Dict[str, Any]:
                 w.cfg[name] = {"class": "OrderMistakeShock", "target": tgt,
                                "triggerTime": r.randrange(0, s["iterationSteps"]),
                                "priceChangeRate": r.choice([-0.3, -0.05, 0.0, 0.05, 0.4]),
-                               "orderVolume": r.randint(1, 50), "orderTimeLength": r.randint(1, 6),
+                               "orderVolume": r.randint(1, 50), "orderTimeLength": r.choice([0, 1, 1, 2, 3, 4, 6]),
                                "enabled": r.random() < 0.85}
             s.setdefault("events", []).append(name)
         if r.random() < 0.06:
@@ -676,6 +676,16 @@ def gen_rules(r: random.Random, profile: str) -> Dict[str, Any]:
                                     "vol": r.randint(1, 4), **({"ttl": r.randint(1, 4)} if r.random() < 0.5 else {})})
                 turns.append(ops)
             w.scripts[a["name"]] = turns
+        if r.random() < 0.06 and w.scripted:
+            # a price crash to exactly zero: a stub bid below one tick (accepted at 0.0) and a market sell that
+            # sweeps the whole bid side (the round is priced at the last matched resting order)
+            a0 = w.scripted[0]
+            turns = w.scripts[a0["name"]]
+            mk = [m for m in w.markets if m["name"] == a0["markets"][0]][0]
+            i0 = r.randrange(0, max(1, len(turns) // 2))
+            i1 = r.randrange(i0 + 1, len(turns)) if i0 + 1 < len(turns) else i0
+            turns[i0] = turns[i0] + [{"k": "limit", "m": 0, "side": "b", "px": {"mode": "abs", "v": 0.4 * mk["tick"]}, "vol": 3}]
+            turns[i1] = turns[i1] + [{"k": "market", "m": 0, "side": "s", "vol": 80}]
         add_user_rules(r, w, p_bystander=0.25)
         return w.scenario()
     raise ValueError(P)
